@@ -35,14 +35,19 @@ def _models(c, tier):
         # (R) generator: every interleaving of T=2 x M=4 for the windows 2, 3, 8
         (MC, "ReceiverImpl_gen_quick.cfg", dict(workers=1, coverage=False, timeout=900)),
     ]
+    slow = []
     if tier == "thorough":
-        jobs += [
-            (MC, "ReceiverImpl_gendev.cfg", dict(workers=1, coverage=False, timeout=1500)),
+        jobs += [(MC, "ReceiverImpl_gendev.cfg", dict(workers=1, coverage=False, timeout=1500))]
+        # the large instances run in the background while the histories are replayed (joined before the verdict)
+        slow = [
             (MC, "ReceiverImpl_t3m5_all_thorough.cfg", dict(required_actions=("Process",), **ok)),
             (MC, "ReceiverImpl_t3late_thorough.cfg", dict(required_actions=("Process", "Register"), **ok)),
             (MC, "ReceiverImpl_t2m5_any_thorough.cfg", dict(required_actions=("Process",), **ok)),
             (MC, "ReceiverImpl_jumps_thorough.cfg", dict(required_actions=("Process",), **ok)),
         ]
+    pool = ThreadPoolExecutor(max_workers=2)
+    pending = [pool.submit(c.model, m, cfgn, **kw) for (m, cfgn, kw) in slow]
+    pool.shutdown(wait=False)
     res = c.models(jobs, parallel=4)
     by = {cfg: r for (_, cfg, _), r in zip(jobs, res)}
     c.extra["design_counterexamples"] = {cfg[len("ReceiverImpl_cex_"):-4]: r.violated for cfg, r in by.items() if "_cex_" in cfg}
@@ -57,7 +62,7 @@ def _models(c, tier):
                 gen.append(g)
     if not gen:
         raise MachineryError("explorer produced no behaviours")
-    return gen, exhaustive
+    return gen, exhaustive, pending
 
 
 def _replay_model(c, hists):
@@ -206,7 +211,7 @@ def run(tier, replay=None):
     c.trusted = ["harness/drive/c17 recorder, its segment builder and its independent parse of the VoD asset", "dash-mpd XML parser", "TLC"]
     with ThreadPoolExecutor(max_workers=1) as ex:
         fut_build = ex.submit(vlib.build_harness, cmd="c17")
-        gen, exhaustive = _models(c, tier)
+        gen, exhaustive, pending = _models(c, tier)
         drive = fut_build.result()
     genf = c.work / "gen.jsonl"
     with open(genf, "w") as f:
@@ -222,6 +227,8 @@ def run(tier, replay=None):
         st = vlib.run_driver(drive, ["-out", trace, "-par", 4, "-tmp", c.work / "st"] + args, timeout=3000)
         r, lines = c.validate_trace("Receiver_Trace", trace, timeout=3000)
         preds = fut_pred.result()
+    for fut in pending:
+        fut.result()      # a failed model job is a machinery error
     events = vlib.read_ndjson(trace)
     for f in _enrich(events, vlib.bad_to_failures(r, events)):
         c.add_failure(f)
